@@ -31,6 +31,9 @@ ASSUMPTIONS = [
 ]
 
 
+FLAG_STYLE = ["python"]   # set per case by check(): the type of the reverse flags / face numbers inside the links
+
+
 def build_grid(nfaces, axes, table_json, facedims=("face",), ds_facedim="face", labels=None):
     import xarray as xr
     from xgcm import Grid
@@ -49,7 +52,7 @@ def build_grid(nfaces, axes, table_json, facedims=("face",), ds_facedim="face", 
     ds = xr.Dataset({"face_area": ((ds_facedim,), np.arange(nfaces) if labels is None else np.asarray(labels))}, coords=coords)
     fc = {}
     for fd in facedims:
-        fc.update(gen.table_to_xgcm(table_json, fd))
+        fc.update(gen.table_to_xgcm(table_json, fd, flag_style=FLAG_STYLE[0]))
     return Grid(ds, coords=gc, face_connections=fc, autoparse_metadata=False, periodic=False)
 
 
@@ -219,7 +222,8 @@ def strategy_impl(draw, tier):
     # "relabel" says whether the table is written with those labels (consistent) or still with 0..n-1
     labels = draw(st.sampled_from([None, None, "one-based", "sparse"]))
     return {"nfaces": nfaces, "axes": axes, "table": table, "edits": edits, "special": special, "face_order": list(order),
-            "reverse_axes": draw(st.booleans()), "labels": labels, "relabel": draw(st.booleans()), "elsewhere_first": draw(st.booleans())}
+            "reverse_axes": draw(st.booleans()), "labels": labels, "relabel": draw(st.booleans()), "elsewhere_first": draw(st.booleans()),
+            "flag_style": draw(st.sampled_from(["python", "python", "numpy", "int"]))}
 
 
 def strategy(tier):
@@ -227,6 +231,7 @@ def strategy(tier):
 
 
 def check(case, ctx):
+    FLAG_STYLE[0] = case.get("flag_style", "python")
     table = {f: {a: list(v) for a, v in per.items()} for f, per in case["table"].items()}
     for e in case.get("edits") or []:
         (f, a, s), v = e
